@@ -1,7 +1,7 @@
 package props
 
 import (
-	"fmt"
+	"go/ast"
 	"go/token"
 	"go/types"
 	"strings"
@@ -15,7 +15,7 @@ func init() { register("C23", c23) }
 
 func c23(p *an.Prog, r *an.R, tier string) {
 	r.Explanation = "C23 (structural clauses): in indexData.Search and indexData.List every write of repository-derived data into the result (file matches, RepoURLs/LineFragments, repository list entries and map, per-repository statistics) is reached only on paths on which tenant.HasAccess(requestCtx, thatRepository.TenantID) returned true; HasAccess returns true unconditionally only when enforcement is off or the context is the system tenant; results obtained under systemtenant.WithUnsafeContext are not handed to a client. Does NOT decide that query rewriting respects tenancy, nor the wire layer."
-	r.Rule("C23.R1", "every result sink in indexData.Search/List with repository-derived data is guarded on all feasible paths by HasAccess(ctx, repo.TenantID)==true for the same repository index (path-sensitive must-fact analysis over SSA)")
+	r.Rule("C23.R2", "tenant.HasAccess, evaluated abstractly over all 16 combinations of (enforcement on, system-tenant context, tenant present in context, tenant id equals repository tenant id), equals: !enforcement || systemTenant || (tenantPresent && idEqual)")
 	r.Rule("C23.R2", "tenant.HasAccess returns constant true only under !enforceTenant() or systemtenant.Is(ctx); every other return is false or the tenant-id comparison")
 	r.Rule("C23.R3", "every non-test use of systemtenant.WithUnsafeContext is inventoried; the result of a search/list made under it is neither returned, passed on, nor are its tenant-data fields read (exceptions listed)")
 	c23Guards(p, r, "C23.R1", []string{"tenant.HasAccess"})
@@ -82,66 +82,88 @@ func c23HasAccess(p *an.Prog, r *an.R) {
 		return
 	}
 	r.Fn(an.SSAName(f))
-	isCallTo := func(v ssa.Value, pkgSuffix, name string) bool {
-		c, ok := v.(*ssa.Call)
-		if !ok {
-			return false
-		}
-		cal := an.StaticCallee(c)
-		return cal != nil && cal.Name() == name && strings.HasSuffix(cal.Pkg().Path(), pkgSuffix)
+	// HasAccess is a pure function of four conditions: enforcement on (E), system tenant context (S),
+	// the context carries a tenant (T: FromContext's error is nil), and that tenant's id equals the
+	// repository's (Q). Evaluate its body abstractly over the 16 combinations and compare with
+	//   !E || S || (T && Q)
+	d := p.Decl(p.Func("internal/tenant", "HasAccess"))
+	if !r.Anchor(d != nil, "internal/tenant.HasAccess declaration") {
+		return
 	}
-	eng := &an.FactEngine{Fn: f, Track: func(k an.FKey) bool { return k.Op == token.ILLEGAL }}
-	n := 0
-	an.Instrs(f, func(b *ssa.BasicBlock, in ssa.Instruction) {
-		ret, ok := in.(*ssa.Return)
-		if !ok || len(ret.Results) != 1 {
-			return
+	info := d.Pkg.TypesInfo
+	idParam := an.Param(info, d.Decl, 1)
+	// the error variable of FromContext and the tenant value
+	var errObj, tenObj types.Object
+	ast.Inspect(d.Decl.Body, func(n ast.Node) bool {
+		as, ok := n.(*ast.AssignStmt)
+		if !ok || len(as.Lhs) != 2 || len(as.Rhs) != 1 {
+			return true
 		}
-		n++
-		key := fmt.Sprintf("internal/tenant.HasAccess/return#%d", n)
-		switch v := ret.Results[0].(type) {
-		case *ssa.Const:
-			if v.Value == nil || v.Value.String() != "true" {
-				r.OK("C23.R2", key, ret.Pos(), "returns false")
-				return
-			}
-			bad := 0
-			decided := eng.AtBlock(b, func(fs an.Facts) {
-				ok := false
-				for k, val := range fs {
-					if isCallTo(k.X, "internal/tenant", "enforceTenant") && !val {
-						ok = true
-					}
-					if isCallTo(k.X, "systemtenant", "Is") && val {
-						ok = true
-					}
+		if c, ok := ast.Unparen(as.Rhs[0]).(*ast.CallExpr); ok {
+			if f := an.Callee(info, c); f != nil && f.Name() == "FromContext" {
+				if id, ok := as.Lhs[0].(*ast.Ident); ok {
+					tenObj = info.ObjectOf(id)
 				}
-				if !ok {
-					bad++
-				}
-			})
-			if !decided {
-				r.Und("C23.R2", key, ret.Pos(), "path bound exceeded")
-				return
-			}
-			r.Check(bad == 0, "C23.R2", key, ret.Pos(), "`return true` only under enforcement-off or system-tenant context",
-				"HasAccess can return true without enforcement being off or the context being the system tenant: every tenant check in the searcher is void on that path")
-		case *ssa.BinOp:
-			// t.ID() == id
-			okCmp := v.Op == token.EQL
-			usesParam := false
-			for _, op := range []ssa.Value{v.X, v.Y} {
-				if prm, ok := op.(*ssa.Parameter); ok && prm.Name() == f.Params[1].Name() {
-					usesParam = true
+				if id, ok := as.Lhs[1].(*ast.Ident); ok {
+					errObj = info.ObjectOf(id)
 				}
 			}
-			r.Check(okCmp && usesParam, "C23.R2", key, ret.Pos(), "returns the comparison of the context's tenant id with the repository's tenant id",
-				"the final return of HasAccess is not `tenantID == id`")
-		default:
-			r.Bad("C23.R2", key, ret.Pos(), "HasAccess returns a value that is neither a constant nor the tenant-id comparison")
 		}
+		return true
 	})
-	r.Floor("C23.R2.returns", 4, n)
+	atom := func(e ast.Expr) (string, bool, bool) {
+		switch x := ast.Unparen(e).(type) {
+		case *ast.CallExpr:
+			if f := an.Callee(info, x); f != nil && f.Pkg() != nil {
+				if f.Name() == "enforceTenant" && strings.HasSuffix(f.Pkg().Path(), "internal/tenant") {
+					return "E", false, true
+				}
+				if f.Name() == "Is" && strings.HasSuffix(f.Pkg().Path(), "systemtenant") {
+					return "S", false, true
+				}
+			}
+		case *ast.BinaryExpr:
+			if x.Op != token.EQL && x.Op != token.NEQ {
+				return "", false, false
+			}
+			// err == nil / err != nil
+			if errObj != nil && ((isIdentOf(info, x.X, errObj) && info.Types[x.Y].IsNil()) || (isIdentOf(info, x.Y, errObj) && info.Types[x.X].IsNil())) {
+				return "T", x.Op == token.NEQ, true
+			}
+			// t.ID() == id
+			isID := func(e ast.Expr) bool { return isIdentOf(info, e, idParam) }
+			isTenantID := func(e ast.Expr) bool {
+				c, ok := ast.Unparen(e).(*ast.CallExpr)
+				if !ok {
+					return false
+				}
+				se, ok := ast.Unparen(c.Fun).(*ast.SelectorExpr)
+				return ok && se.Sel.Name == "ID" && tenObj != nil && isIdentOf(info, se.X, tenObj)
+			}
+			if (isID(x.X) && isTenantID(x.Y)) || (isID(x.Y) && isTenantID(x.X)) {
+				return "Q", x.Op == token.NEQ, true
+			}
+		}
+		return "", false, false
+	}
+	res, why := an.BoolEval(info, d.Decl.Body, []string{"E", "S", "T", "Q"}, atom)
+	key := "internal/tenant.HasAccess/grants-access-exactly-when-allowed"
+	if why != "" {
+		r.Und("C23.R2", key, d.Decl.Pos(), "HasAccess uses a construct outside the boolean fragment ("+why+"): abstract evaluation over the 16 combinations is not possible")
+		return
+	}
+	wrong := ""
+	for w, got := range res {
+		e, s2, t, q := strings.Contains(w, "E=1"), strings.Contains(w, "S=1"), strings.Contains(w, "T=1"), strings.Contains(w, "Q=1")
+		want := !e || s2 || (t && q)
+		// when the context carries no tenant (T=0) the id comparison is meaningless: both values of Q describe the same situation
+		if got != want && (wrong == "" || w < wrong) {
+			wrong = w
+		}
+	}
+	r.Extra["C23.R2.cases_evaluated"] = len(res)
+	r.Check(wrong == "", "C23.R2", key, d.Decl.Pos(), "abstract evaluation over all 16 combinations of (enforcement, system tenant, tenant in context, id equal) agrees with !E || S || (T && Q)",
+		"HasAccess disagrees with `enforcement off, or system-tenant context, or the context's tenant id equals the repository's` for "+wrong+": every tenant check in the searcher is wrong in that situation")
 }
 
 // c23Unsafe: uses of systemtenant.WithUnsafeContext.
